@@ -9,6 +9,11 @@
 //                                          sequence ending in a known level while thread B calls getfd at a random
 //                                          moment; after both are done poll(2) must equal the final level.
 //                                          observation: race rounds=<n> bad=<k> raised_final=<r> created_during=<c>
+//   window clear | window raise            the interleaving of Properties_C15.pollable_level_concurrent_clear_refuted, made
+//                                          deterministic: pollable.c is compiled into this unit with the load of p_raised inside
+//                                          nni_pollable_getfd wrapped, so that a complete nni_pollable_clear (resp. raise) of
+//                                          "another thread" runs exactly between that load and the write that follows it.
+//                                          observation: window fd=<0|1> flag=<0|1> [after-clear fd=<0|1>]
 //   mark <k>
 #define _GNU_SOURCE
 #include <poll.h>
@@ -16,6 +21,24 @@
 
 #include "core/nng_impl.h"
 #include "wb_common.h"
+
+// pollable.c as it is in the tree, with one instrumented load (the archive member is then not linked)
+static void (*c15_hook)(void);
+static bool c15_get_bool(nni_atomic_bool *b);
+#define nni_atomic_get_bool c15_get_bool
+#include "core/pollable.c"
+#undef nni_atomic_get_bool
+static bool
+c15_get_bool(nni_atomic_bool *b)
+{
+	bool v = nni_atomic_get_bool(b);
+	if (c15_hook != NULL) {
+		void (*h)(void) = c15_hook;
+		c15_hook        = NULL;
+		h();
+	}
+	return (v);
+}
 
 static nni_pollable P;
 static int          live;
@@ -37,6 +60,17 @@ show(void)
 		printf("fd=%d\n", readable(fd));
 	}
 	fflush(stdout);
+}
+
+static void
+hook_clear(void)
+{
+	nni_pollable_clear(&P);
+}
+static void
+hook_raise(void)
+{
+	nni_pollable_raise(&P);
 }
 
 static void
@@ -130,6 +164,27 @@ main(void)
 			show();
 		} else if (strcmp(op, "poll") == 0) {
 			show();
+		} else if (strcmp(op, "window") == 0) {
+			char what[32] = "";
+			sscanf(line, "%*s %31s", what);
+			fresh();
+			int f = -1;
+			if (strcmp(what, "clear") == 0) {
+				nni_pollable_raise(&P);
+				c15_hook = hook_clear;
+			} else {
+				c15_hook = hook_raise;
+			}
+			nni_pollable_getfd(&P, &f);
+			c15_hook = NULL;
+			fd       = f;
+			printf("window fd=%d flag=%d", readable(f), nni_atomic_get_bool(&P.p_raised) ? 1 : 0);
+			if (strcmp(what, "clear") == 0) {
+				nni_pollable_clear(&P); // a further clear finds the flag down and does not drain
+				printf(" after-clear fd=%d", readable(f));
+			}
+			printf("\n");
+			fflush(stdout);
 		} else if (strcmp(op, "race") == 0) {
 			unsigned seed = (unsigned) b;
 			int      bad = 0, ups = 0, during = 0;
